@@ -585,6 +585,43 @@ func c19Printer(c *Ctx, p *Prog) {
 		}
 	}
 	c.Floor(R, "map ranges in the printer", len(mrs), 2)
+	// each scan runs for every result: nothing but the emptiness of the scanned map itself may decide whether the loop runs
+	// (two label sets of equal size can still differ, so a size comparison cannot tell that no key was removed)
+	for i, mr := range mrs {
+		key := fmt.Sprintf("Print:scan#%d:unconditional", i+1)
+		bad := ""
+		for _, f := range factsAt(mr.Loop.Header) {
+			if f.If.Block() == mr.Loop.Header || mr.Loop.Blocks[f.If.Block()] {
+				continue
+			}
+			okGuard := false
+			if bo, ok := f.Cond.(*ssa.BinOp); ok {
+				isLenOfRanged := func(v ssa.Value) bool {
+					call, ok := v.(*ssa.Call)
+					if !ok {
+						return false
+					}
+					bi, ok := call.Call.Value.(*ssa.Builtin)
+					return ok && bi.Name() == "len" && sameValue(call.Call.Args[0], mr.Range.X)
+				}
+				isZero := func(v ssa.Value) bool { k, ok := constInt(v); return ok && k == 0 }
+				isNil := func(v ssa.Value) bool { k, ok := v.(*ssa.Const); return ok && k.Value == nil }
+				switch {
+				case (isLenOfRanged(bo.X) && isZero(bo.Y)) || (isLenOfRanged(bo.Y) && isZero(bo.X)):
+					okGuard = true
+				case (sameValue(bo.X, mr.Range.X) && isNil(bo.Y)) || (sameValue(bo.Y, mr.Range.X) && isNil(bo.X)):
+					okGuard = true
+				}
+			}
+			if !okGuard {
+				bad = p.pos(f.If.Pos())
+				if bad == "" {
+					bad = p.pos(f.Cond.Pos())
+				}
+			}
+		}
+		c.Check(bad == "", R, key, p.pos(mr.Pos), "the scan runs for every result", "the scan over the labels runs only under a condition (at "+bad+") other than the scanned map being non-empty: a result that drops one label and gains another has as many labels as the model, the removed label is never printed as 'k:', and a reader of the output keeps it on all later results")
+	}
 	// per range: the condition under which a key is collected
 	for i, mr := range mrs {
 		start := loopBodyStart(mr.Loop)
